@@ -25,7 +25,9 @@
    the real code under the property observers: the unchanged code passes, an implementation that has the bug fails.
      "no_inval" "partial_ok" "no_old_recv" "le_old" "no_old_send" "no_clear_req" "eph_in_dosend" "eph_ffwd"
      "no_rerequest" "bal_all_pubs" "no_required" "prefetch_first_hop" "no_unregister" "id_not_carried" "hello_counts"
-     "inval_complete_only" "C01b_state" "bal_unlock_on_enter" "bal_eph_reenables" "stale_t" *)
+     "inval_complete_only" "C01b_state" "bal_unlock_on_enter" "bal_eph_reenables" "stale_t" "ll_prev_stale"
+   and the switch "stale_kept": recv() keeps the frames buffered under an older id when it is entered with a newer expected id
+   (the code before its repair, see known_findings.json) *)
 EXTENDS Integers, Sequences, FiniteSets, TLC
 
 CONSTANTS
@@ -50,6 +52,8 @@ CONSTANTS
   ExitKind,    \* [Filters -> {"clean", "error"}]  by exit() or by raising
   PropExit,    \* [Filters -> SUBSET {"clean", "error"}]  prop_exit policy: which kinds of its own ending it announces
   ObeyExit,    \* [Filters -> SUBSET {"clean", "error"}]  obey_exit policy: which announced kinds make it end too
+  SrcTimeout,  \* [Filters -> Nat]  sources_timeout in poll intervals (0 = none): after that long without a complete set
+               \* Filter.loop_once calls process() with {} and sends what it returns (filter.py:865-873)
   Blocking,    \* subset of Filters: applications that drive MQ.recv() / MQ.send() with timeout = None (no 100 ms slices)
   CheckC03,    \* evaluate C03 (meaningful only without faults, with the handshake on and required outputs declared)
   TopicOrder   \* sequence of all topic names: the dict order in which a frame set is published
@@ -134,7 +138,8 @@ InitRecvd(c) == IF Explicit(c) THEN [some |-> TRUE,  e |-> [t \in SubTopics(c) |
                                ELSE [some |-> FALSE, e |-> EmptyF]
 InitSrc(c, conn) == [conn |-> conn, reg |-> TRUE, emin |-> 0] @@ InitRecvd(c)
 InitSrcs(f) == [i \in 1..NSrc(f) |-> InitSrc(<<f, i>>, FALSE)]
-InitMQ      == [ss |-> NoneSt, sbal |-> 0, rs |-> NoneSt, frames |-> EmptyF, has |-> FALSE, inp |-> EmptyF]
+InitMQ      == [ss |-> NoneSt, sbal |-> 0, rs |-> NoneSt, frames |-> EmptyF, has |-> FALSE, inp |-> EmptyF, tw |-> 0]
+\* tw: recv() slices of the current loop_once that timed out (counted only when the filter has a sources_timeout)
 InitSL      == [mid |-> 0, bal |-> 0, doSend |-> FALSE, doHello |-> FALSE, outs |-> {}, waited |-> 0]
 \* waited: ZMQ_POLL_TIMEOUT ticks spent in this send() call; only kept by the design mutation "stale_t" (one clock read per call)
 StartPC(f)  == IF IsOrigin(f) THEN "gen" ELSE "r_enter"
@@ -364,6 +369,11 @@ REnter(f) ==
   /\ rbal' = [rbal EXCEPT ![f] = 0]
   /\ rsrc' = IF D("bal_unlock_on_enter") /\ SrcBal[f]      \* mutation: every incomplete source is put back into the poller
              THEN [rsrc EXCEPT ![f] = [i \in 1..NSrc(f) |-> IF GotAll(rsrc[f][i]) THEN rsrc[f][i] ELSE [rsrc[f][i] EXCEPT !.reg = TRUE]]]
+             \* the id expected now is past the one the frames buffered by a timed-out recv() carry (sends made without input
+             \* after sources_timeout advanced it): they are dropped, every source is polled again (ZMQReceiver.new_recv)
+             ELSE IF ~D("stale_kept") /\ (IF mq[f].rs = NoneSt THEN prevId[f] + 1 ELSE mq[f].rs) > rmin[f]
+                     /\ \E i \in SyncSrcs(f) : Got(rsrc[f][i]) # "none"
+             THEN [rsrc EXCEPT ![f] = [i \in 1..NSrc(f) |-> [InitSrc(<<f, i>>, rsrc[f][i].conn) EXCEPT !.emin = rsrc[f][i].emin]]]
              ELSE rsrc
   /\ pc' = [pc EXCEPT ![f] = "r_poll0"]
   /\ lbl' = <<"int", f, 0>>
@@ -414,9 +424,14 @@ RTimeout(f) ==
   /\ reqq' = IF D("no_rerequest") THEN reqq ELSE Request(f, rmin[f] - 1, rsrc[f], reqq)
   /\ rsrc' = [rsrc EXCEPT ![f] = ReqConn(f, rsrc[f], reqq)]
   /\ clients' = [clients EXCEPT ![f] = Aged(@)]
-  /\ pc' = [pc EXCEPT ![f] = IF f \in Blocking THEN "r_wait" ELSE "r_enter"]
+  /\ LET giveUp == SrcTimeout[f] > 0 /\ f \notin Blocking /\ mq[f].tw + 1 >= SrcTimeout[f]
+     IN IF giveUp    \* loop_once stops waiting: process({}) (no state from recv: the sender numbers what it returns itself)
+        THEN /\ pc' = [pc EXCEPT ![f] = "proc"]
+             /\ mq' = [mq EXCEPT ![f].inp = EmptyF, ![f].has = TRUE, ![f].ss = NoneSt, ![f].sbal = 0, ![f].tw = 0]
+        ELSE /\ pc' = [pc EXCEPT ![f] = IF f \in Blocking THEN "r_wait" ELSE "r_enter"]
+             /\ mq' = IF SrcTimeout[f] > 0 THEN [mq EXCEPT ![f].tw = @ + 1] ELSE mq
   /\ lbl' = <<"timeout", f, 0>>
-  /\ UNCHANGED <<minSend, sl, prevId, rmin, rbal, mq, oseq, pubq, subq, pullq, linkUp, inc, stalled, nfaults, gvars>>
+  /\ UNCHANGED <<minSend, sl, prevId, rmin, rbal, oseq, pubq, subq, pullq, linkUp, inc, stalled, nfaults, gvars>>
 
 (* ---- C03: what every filter must see = functional composition of the upstream process() functions.
    Message ids are carried from input to output (MQ.send_state), so the frames of different sources pair up by id.
@@ -491,12 +506,12 @@ RFinal(f, phase, back) ==
               pre  == ~Beh[f].lowlat /\ (rbal[f] # 1 \/ D("prefetch_first_hop"))                  \* prefetch (zeromq.py:916-917)
               dup  == \E x, y \in Pairs(srcs) : x # y /\ MapTopic(<<f, x[1]>>, x[2]) = MapTopic(<<f, y[1]>>, y[2])
           IN /\ reqq' = IF pre THEN Request(f, rmin[f], srcs, reqq) ELSE reqq
-             /\ prevId' = [prevId EXCEPT ![f] = rmin[f]]
+             /\ prevId' = [prevId EXCEPT ![f] = IF D("ll_prev_stale") /\ Beh[f].lowlat THEN @ ELSE rmin[f]]
              /\ rsrc' = [rsrc EXCEPT ![f] = [i \in 1..NSrc(f) |->
                             [InitSrc(<<f, i>>, (IF pre THEN ReqConn(f, srcs, reqq) ELSE srcs)[i].conn)
                                EXCEPT !.emin = srcs[i].emin]]]
              /\ mq' = [mq EXCEPT ![f].ss = IF D("id_not_carried") THEN NoneSt ELSE rmin[f], ![f].sbal = rbal[f], ![f].rs = NoneSt,
-                                 ![f].inp = data, ![f].has = TRUE]
+                                 ![f].inp = data, ![f].has = TRUE, ![f].tw = 0]
              /\ pc' = [pc EXCEPT ![f] = IF dup THEN "crashed" ELSE "proc"]        \* duplicate topic: RuntimeError (928)
              /\ bad' = bad \cup DeliveryFaults(f, srcs, rmin[f]) \cup
                         (IF CheckC03 /\ C03Applies(f) /\
